@@ -32,6 +32,10 @@ type serverConn struct {
 	parserMu sync.Mutex
 	parser   parser.Parser
 
+	// Set when the connection is closed. New sockets are not admitted after that (see Namespace.doConnect).
+	closed   bool
+	closedMu sync.Mutex
+
 	closeOnce sync.Once
 	debug     Debugger
 }
@@ -235,6 +239,10 @@ func (c *serverConn) onClose(reason Reason, err error) {
 	// We don't want it to close more than once,
 	// so we use sync.Once to avoid running onClose more than once.
 	c.closeOnce.Do(func() {
+		c.closedMu.Lock()
+		c.closed = true
+		c.closedMu.Unlock()
+
 		sockets := c.sockets.getAndRemoveAll()
 		for _, socket := range sockets {
 			socket.onClose(reason)
